@@ -53,8 +53,10 @@ def probe_observables(inp: Dict[str, Any]) -> Dict[str, Any]:
 
     names = inp["names"]
     sp = esh.settings(method=inp["method"], eps=inp.get("eps", 1e-9), converger=inp.get("converger", [1]), uhf=inp.get("uhf", False),
-                      excited=inp.get("excited"), active_state=inp.get("active_state", 0), sp2=inp.get("sp2"))
-    r = _capture_run(names, sp, pad_to=inp.get("pad_to"), pad_coord=inp.get("pad_coord", 0.0))
+                      excited=inp.get("excited"), active_state=(inp.get("active_state", 0) if isinstance(inp.get("active_state", 0), int) else 0), sp2=inp.get("sp2"),
+                      **(inp.get("sp_over") or {}))
+    r = _capture_run(names, sp, pad_to=inp.get("pad_to"), pad_coord=inp.get("pad_coord", 0.0),
+                     active=(inp["active_state"] if isinstance(inp.get("active_state"), list) else None), es_kwargs=inp.get("es_kwargs"))
     mol = r["_mol"]
     bad: List[str] = []
     nmol = len(names)
@@ -64,7 +66,10 @@ def probe_observables(inp: Dict[str, Any]) -> Dict[str, Any]:
     # 1. energy assembly
     eexc = np.zeros(nmol)
     act = inp.get("active_state", 0)
-    if act and r["cis_energies"] is not None:
+    if isinstance(act, list) and r["cis_energies"] is not None:
+        # per-molecule active surfaces: ground-state members carry no excitation energy
+        eexc = np.array([r["cis_energies"][m, a_ - 1] if a_ > 0 else 0.0 for m, a_ in enumerate(act)])
+    elif act and r["cis_energies"] is not None:
         eexc = r["cis_energies"][:, act - 1]
     d = np.abs(r["Etot"] - (r["Eelec"] + r["Enuc"] + eexc))
     if (d > 1e-9 * np.maximum(1, np.abs(r["Etot"]))).any():
@@ -259,6 +264,13 @@ def gen_cases(ctx: Ctx) -> List[Dict[str, Any]]:
     cases.append({"names": ["ch2o"], "method": "AM1", "converger": [1], "eps": 1e-9, "excited": {"n_states": 3, "method": "cis"}, "active_state": 1})
     if ctx.thorough:
         cases.append({"names": ["h2o", "h2o"], "method": "PM3", "converger": [1], "eps": 1e-9, "excited": {"n_states": 2, "method": "rpa"}, "active_state": 2})
+    # one batch mixing ground-state and excited members (per-molecule active surfaces), on the evaluation paths that accept it: energy only and
+    # back-propagated forces (the analytical excited-state gradient rejects a mixed batch loudly: "Active states must be >0")
+    paths = [{"es_kwargs": {"do_force": False}}, {"sp_over": {"scf_backward": 1}}, {"sp_over": {"scf_backward": 2}}]
+    for j in ([0, 1, 2] if ctx.thorough else [ctx.seed % 3, (ctx.seed + 1) % 3]):
+        nm = [["ch2o", "ch2o"], ["h2o", "h2o", "h2o"]][j % 2]
+        act = [[0, 2], [1, 0, 2]][j % 2]
+        cases.append(dict({"names": nm, "method": ["AM1", "PM3"][j % 2], "converger": [1], "eps": 1e-9, "excited": {"n_states": 3, "method": "cis"}, "active_state": act}, **paths[j]))
     return cases
 
 
